@@ -24,72 +24,44 @@ impl<K, V, const SORTED: bool> Default for VMap<K, V, SORTED> {
     }
 }
 
-pub enum Entry<'a, K, V, const SORTED: bool = true> {
-    Occupied(OccupiedEntry<'a, K, V, SORTED>),
-    Vacant(VacantEntry<'a, K, V, SORTED>),
-}
-
-pub struct OccupiedEntry<'a, K, V, const SORTED: bool = true> {
+/// Flat (non-enum) entry handle: moving an enum that carries the `&mut` map reference makes
+/// the model checker lose track of what the reference points to.
+pub struct Entry<'a, K, V, const SORTED: bool = true> {
     map: &'a mut VMap<K, V, SORTED>,
     idx: usize,
-}
-
-pub struct VacantEntry<'a, K, V, const SORTED: bool = true> {
-    map: &'a mut VMap<K, V, SORTED>,
-    idx: usize,
-    key: K,
-}
-
-impl<'a, K: Ord, V, const SORTED: bool> OccupiedEntry<'a, K, V, SORTED> {
-    pub fn key(&self) -> &K {
-        &self.map.items[self.idx].0
-    }
-    pub fn get(&self) -> &V {
-        &self.map.items[self.idx].1
-    }
-    pub fn get_mut(&mut self) -> &mut V {
-        &mut self.map.items[self.idx].1
-    }
-    pub fn into_mut(self) -> &'a mut V {
-        &mut self.map.items[self.idx].1
-    }
-    pub fn insert(&mut self, v: V) -> V {
-        core::mem::replace(&mut self.map.items[self.idx].1, v)
-    }
-    pub fn remove(self) -> V {
-        self.map.items.remove(self.idx).1
-    }
-}
-
-impl<'a, K: Ord, V, const SORTED: bool> VacantEntry<'a, K, V, SORTED> {
-    pub fn key(&self) -> &K {
-        &self.key
-    }
-    pub fn insert(self, v: V) -> &'a mut V {
-        let idx = self.idx;
-        self.map.items.push((self.key, v));
-        if SORTED {
-            self.map.bubble_into_place(idx);
-            &mut self.map.items[idx].1
-        } else {
-            let last = self.map.items.len() - 1;
-            &mut self.map.items[last].1
-        }
-    }
+    found: bool,
+    key: Option<K>,
 }
 
 impl<'a, K: Ord, V, const SORTED: bool> Entry<'a, K, V, SORTED> {
-    pub fn or_insert(self, default: V) -> &'a mut V {
-        match self {
-            Entry::Occupied(o) => o.into_mut(),
-            Entry::Vacant(v) => v.insert(default),
+    fn place(&mut self, v: V) {
+        let k = self.key.take().expect("vacant entry has a key");
+        self.map.items.push((k, v));
+        if SORTED {
+            self.map.bubble_into_place(self.idx);
+        } else {
+            self.idx = self.map.items.len() - 1;
         }
+        self.found = true;
     }
-    pub fn or_insert_with<F: FnOnce() -> V>(self, f: F) -> &'a mut V {
-        match self {
-            Entry::Occupied(o) => o.into_mut(),
-            Entry::Vacant(v) => v.insert(f()),
+    pub fn or_insert(mut self, default: V) -> &'a mut V {
+        if !self.found {
+            self.place(default);
         }
+        &mut self.map.items[self.idx].1
+    }
+    pub fn or_insert_with<F: FnOnce() -> V>(mut self, f: F) -> &'a mut V {
+        if !self.found {
+            self.place(f());
+        }
+        &mut self.map.items[self.idx].1
+    }
+    pub fn or_insert_with_key<F: FnOnce(&K) -> V>(mut self, f: F) -> &'a mut V {
+        if !self.found {
+            let v = f(self.key.as_ref().expect("vacant entry has a key"));
+            self.place(v);
+        }
+        &mut self.map.items[self.idx].1
     }
     pub fn or_default(self) -> &'a mut V
     where
@@ -97,17 +69,25 @@ impl<'a, K: Ord, V, const SORTED: bool> Entry<'a, K, V, SORTED> {
     {
         self.or_insert_with(V::default)
     }
-    pub fn and_modify<F: FnOnce(&mut V)>(mut self, f: F) -> Self {
-        if let Entry::Occupied(o) = &mut self {
-            f(o.get_mut());
+    pub fn and_modify<F: FnOnce(&mut V)>(self, f: F) -> Self {
+        if self.found {
+            f(&mut self.map.items[self.idx].1);
         }
         self
     }
     pub fn key(&self) -> &K {
-        match self {
-            Entry::Occupied(o) => o.key(),
-            Entry::Vacant(v) => v.key(),
+        match &self.key {
+            Some(k) => k,
+            None => &self.map.items[self.idx].0,
         }
+    }
+    pub fn insert_entry(mut self, v: V) -> &'a mut V {
+        if self.found {
+            self.map.items[self.idx].1 = v;
+        } else {
+            self.place(v);
+        }
+        &mut self.map.items[self.idx].1
     }
 }
 
@@ -198,12 +178,8 @@ impl<K: Ord, V, const SORTED: bool> VMap<K, V, SORTED> {
     }
     pub fn entry(&mut self, k: K) -> Entry<'_, K, V, SORTED> {
         match self.pos(&k) {
-            Ok(idx) => Entry::Occupied(OccupiedEntry { map: self, idx }),
-            Err(idx) => Entry::Vacant(VacantEntry {
-                map: self,
-                idx,
-                key: k,
-            }),
+            Ok(idx) => Entry { map: self, idx, found: true, key: None },
+            Err(idx) => Entry { map: self, idx, found: false, key: Some(k) },
         }
     }
     pub fn remove<Q: ?Sized + Ord>(&mut self, k: &Q) -> Option<V>
